@@ -9,6 +9,7 @@ All theorems quantify over every table, every requested configuration, every id;
 graphs may contain cycles of any length.
 -/
 import AgVerif.Proof.Resolve
+import AgVerif.Gen.Resolver
 namespace AgVerif.C29
 open AgVerif.Resolve AgVerif.Spec.Reach
 
@@ -106,6 +107,26 @@ theorem resolve_returns_imp_acyclic (t : Table) (w : Option Config) (rid : ResId
   intro a b hra hab hba
   rw [resolve_diverges_into_cycle t w rid a b hra hab hba fuel] at h
   cases h
+
+/-- The model threads the reference path through each resolution as an argument that starts
+    empty (`resolveV` calls `resolveVF … []`).  That is the code's behaviour only if the path
+    container `_resolving` is created per resolver instance in `__init__`, a fresh resolver is
+    built for every `get_resolved_res_configs`, the container is pushed/popped with try/finally
+    around the body of `_resolve_into_result`, the guard is `res_id in self._resolving` before the
+    push, the id pushed is the id being resolved and the recursion re-enters the same instance.
+    `Gen.Resolver.shape` is extracted from the repository source on every run (gen/resolver.py). -/
+theorem resolver_state_is_per_call :
+    AgVerif.Gen.Resolver.shape = ⟨.instance, .tryFinally, .memberBeforePush, true, true, true⟩ := by
+  decide
+
+/-- Why the previous theorem matters: a resolution that starts with a foreign id on its path
+    (state shared with another resolution in progress) silently loses reachable values. -/
+theorem foreign_path_drops_values :
+    ∃ (t : Table) (vis : List ResId) (rid : ResId) (tok : Tok) (out : List Tok),
+      ReachVal t none rid tok ∧ resolveVF t none t.bound vis rid = some out ∧ tok ∉ out := by
+  refine ⟨⟨[(1, [(0, .simple (.ref 2)), (3, .simple (.lit "a"))]), (2, [(0, .simple (.ref 3))]),
+            (3, [(5, .simple (.lit "z"))])]⟩, [2], 1, .pair 5 "z", [.pair 3 "a"], ?_, by decide, by decide⟩
+  exact ⟨3, Reach.step (b := 2) (by decide) (Reach.step (b := 3) (by decide) (Reach.refl 3)), by decide⟩
 
 /-! ### non-vacuity: concrete tables -/
 
